@@ -4,7 +4,7 @@ import os
 from vlib.engine import Failure, Machinery
 
 PKG = "./cmd/vh_recorder"
-INPUTS = ("id", "res", "bpm100", "lead", "chunks", "feat")
+INPUTS = ("id", "res", "bpm100", "lead", "chunks", "feat", "via", "extra", "extraat", "prior")
 
 
 def sig_of(info, rec):
@@ -20,10 +20,10 @@ def sig_of(info, rec):
     return "read:" + info.get("read", "?")
 
 
-def gen(ctx, n, seed):
+def gen(ctx, n, seed, nslow=0):
     vh = ctx.build(PKG)
     out = os.path.join(ctx.sub("recgen"), "rec.ndjson")
-    ctx.run([vh, "rec-gen", "-seed", str(seed), "-n", str(n), "-out", out])
+    ctx.run([vh, "rec-gen", "-seed", str(seed), "-n", str(n), "-nslow", str(nslow), "-out", out])
     return [json.loads(x) for x in open(out)]
 
 
@@ -81,7 +81,7 @@ def run(ctx):
                         "sessions are bounded so that every delta fits an SMF delta time (< 2^28 ticks) and 2^24 ms",
                         "the initial tempo event is FF 51 03 with the recording tempo within one microsecond per quarter note"]
     ctx.model_check("MC_Recorder", "MC_Recorder_quick.cfg" if q else "MC_Recorder.cfg", timeout=1500)
-    recs = gen(ctx, 1000 if q else 12000, ctx.seed + 13000)
+    recs = gen(ctx, 1000 if q else 12000, ctx.seed + 13000, 48 if q else 600)
     fails = validate(ctx, recs)
     nev = sum(max(0, len(r["track"]) - 2) for r in recs)
     npos = sum(1 for r in recs for e in r["track"][2:-1] if e["d"] != [0])
@@ -91,13 +91,33 @@ def run(ctx):
     ctx.count(len(recs), [hash(str(r["chunks"])) for r in nt],
               [{"res": r["res"], "bpm100": r["bpm100"], "chunks": r["chunks"][:4], "track": r["track"][:4], "feat": r["feat"]} for r in recs[:3]])
 
+    batch = {"n": 1000 if q else 12000, "seed": ctx.seed + 13000}
+
     def confirm(f):
         ok, _, _ = rerun(ctx, f.payload["session"])
+        if not ok and f.payload["session"]["via"] == "track":
+            # not reproducible alone: the session may depend on what the process did before it (state the library keeps
+            # between recordings).  Re-execute it in its context -- the same batch from the same seed -- and judge it again.
+            ok, _, _ = rerun_in_batch(ctx, f.payload["session"]["id"], batch)
+            if ok:
+                f.payload["batch"] = batch
+                f.what += " ; reproduces only after the sessions that precede it in the batch (state kept between recordings)"
         return ok
     ctx.report(fails, confirm)
 
 
+def rerun_in_batch(ctx, sid, batch):
+    recs = gen(ctx, batch["n"], batch["seed"], 0)
+    new = [r for r in recs if r["id"] == sid]
+    bad = ctx.validate("Trace_Recorder", new, shards=1)
+    return bool(bad), (new[0] if new else None), (bad[0][1] if bad else None)
+
+
 def replay(ctx, payload):
-    ok, new, info = rerun(ctx, payload["payload"]["session"])
+    pl = payload["payload"]
+    if pl.get("batch"):
+        ok, new, info = rerun_in_batch(ctx, pl["session"]["id"], pl["batch"])
+    else:
+        ok, new, info = rerun(ctx, pl["session"])
     print(json.dumps({"reexecuted": new, "verdict": info})[:3000])
     return ok
